@@ -1402,6 +1402,9 @@ func selftestDeterminism(pl *pool, seed int64, runs int) {
 		ids = append(ids, id)
 	}
 	sort.Strings(ids)
+	if only := os.Getenv("VERIF_SELFTEST_PROPS"); only != "" {
+		ids = strings.Split(only, ",")
+	}
 	type key struct {
 		prop  string
 		batch string
